@@ -40,6 +40,7 @@ def check(model, tier):
 
     _merge.r05_3_merged_constructors(ctx, rule="R11.7")
     _merge.r05_4_then(ctx, rule="R11.8")
+    sqlplace.r_inner_calculation_name(ctx, "R11.9")
     from ..rules.foundation import run_foundation
 
     run_foundation(ctx, "11")
